@@ -7,7 +7,12 @@ import pandas as pd
 from .core import num
 
 
+NOTE = "note"      # a free-text column some data sets carry next to the numeric ones; it is never a target and must come back untouched
+
+
 def mat(a):
+    if isinstance(a, pd.DataFrame) and NOTE in a.columns:
+        a = a.drop(columns=NOTE)
     a = np.asarray(a, dtype=float)
     if a.ndim == 1:
         a = a.reshape(-1, 1)
@@ -18,12 +23,20 @@ def container(x):
     return "DataFrame" if isinstance(x, pd.DataFrame) else ("ndarray" if isinstance(x, np.ndarray) else type(x).__name__)
 
 
+def _note_of(x):
+    return [str(v) for v in x[NOTE]] if isinstance(x, pd.DataFrame) and NOTE in x.columns else None
+
+
 def labels(x):
     return [str(c) for c in x.columns] if isinstance(x, pd.DataFrame) else []
 
 
 def base_event(op, data, out, before):
-    return {"op": op, "in": before, "inafter": mat(data), "out": mat(out), "tin": container(data), "tout": container(out),
+    tout = container(out)
+    n_in, n_out = _note_of(data), _note_of(out)
+    if n_in is not None and op not in ("resample", "cover") and n_in != n_out:
+        tout += " whose text column changed"         # (resampling / sampling moves whole rows, text included)
+    return {"op": op, "in": before, "inafter": mat(data), "out": mat(out), "tin": container(data), "tout": tout,
             "colsin": labels(data), "colsout": labels(out), "colsexp": [],
             "from": 0, "to": 0, "c1": 1, "c2": 1, "k1": "0.0", "k2": "0.0", "knew": "0.0", "factor": "0.0", "alpha": "0.0",
             "x0": "0.0", "size": 0, "keys": [], "n": "0.0", "counts": [], "probs": [], "zero": []}
@@ -35,7 +48,13 @@ def make_data(rng, n, ncols, frame, classes=(0.0, 1.0, 2.0)):
     if frame:
         # how the columns of a DataFrame may be labelled: strings, pandas' default RangeIndex, a RangeIndex that does not start at 0 or has a
         # step, plain integer labels in arbitrary order - the column ARGUMENT is always a label, never a position
-        style = rng.choice(["str", "str", "range0", "range1", "rangestep", "ints"])
+        style = rng.choice(["str", "str", "range0", "range1", "rangestep", "ints", "mixed"])
+        if style == "mixed":
+            # a mixed-type frame: an integer-typed feature column, float columns, and a text column at the end
+            df = pd.DataFrame(a, columns=names)
+            df[names[0]] = df[names[0]].astype("int64")
+            df[NOTE] = ["r%d" % i for i in range(n)]
+            return df, names
         if style == "range0":
             df = pd.DataFrame(a)
         elif style == "range1":
